@@ -6,8 +6,18 @@ package main
 // consecutive blocks for grids of parameters; step-wise correspondence per block.
 
 import (
+	"encoding/json"
 	"fmt"
 	"math/big"
+	"os"
+	"path/filepath"
+	"reflect"
+	"time"
+	"unsafe"
+
+	"github.com/cosmos/cosmos-sdk/types/module"
+	upgradekeeper "github.com/cosmos/cosmos-sdk/x/upgrade/keeper"
+	upgradetypes "github.com/cosmos/cosmos-sdk/x/upgrade/types"
 
 	sdk "github.com/cosmos/cosmos-sdk/types"
 	mintkeeper "github.com/jackalLabs/canine-chain/v4/x/jklmint/keeper"
@@ -225,6 +235,144 @@ func runC13(r *RunCtx) error {
 		}
 		e.Close()
 	}
+	if err := c13UpgradeChains(r); err != nil {
+		return err
+	}
 	AddDecCases(r, r.Scale(120, 1500))
+	return nil
+}
+
+// ---------------------------------------------------------------- whole-app chains across a software upgrade
+//
+// The emission schedule must survive a software upgrade: blocks are produced through the ABCI interface of the
+// assembled app (every module's BeginBlocker in the app's order, x/upgrade first), the chain's stored module
+// versions are those of the release this work started from (corpus/C13/module_versions.json: a chain that has
+// already produced blocks was started by an earlier binary), an upgrade is scheduled whose handler calls
+// mm.RunMigrations like the handlers in app/upgrades, and the chain runs through the upgrade height.  On a tree whose
+// consensus versions equal the recorded ones no migration runs; a migration that is added later is executed here
+// exactly where a live chain executes it.
+
+func c13AppInternals(e *Env) (*module.Manager, module.Configurator, upgradekeeper.Keeper) {
+	v := reflect.ValueOf(e.App).Elem()
+	get := func(name string) reflect.Value {
+		f := v.FieldByName(name)
+		return reflect.NewAt(f.Type(), unsafe.Pointer(f.UnsafeAddr())).Elem()
+	}
+	return get("mm").Interface().(*module.Manager), get("configurator").Interface().(module.Configurator), get("upgradeKeeper").Interface().(upgradekeeper.Keeper)
+}
+
+func c13UpgradeChains(r *RunCtx) error {
+	p := r.Rng
+	raw, err := os.ReadFile(filepath.Join(c19VerifRoot(), "corpus", "C13", "module_versions.json"))
+	if err != nil {
+		return fmt.Errorf("C13: recorded module versions: %w", err)
+	}
+	recorded := module.VersionMap{}
+	if err := json.Unmarshal(raw, &recorded); err != nil {
+		return err
+	}
+	nch := r.Scale(3, 12)
+	for c := 0; c < nch; c++ {
+		e, err := NewEnv()
+		if err != nil {
+			return err
+		}
+		mm, cfg, uk := c13AppInternals(e)
+		params := minttypes.DefaultParams()
+		params.TokensPerBlock = PickOne(p, []int64{4_200_000, 4_200_000, 1_000_000_007, 101})
+		params.MintDecrease = PickOne(p, []int64{6, 6, 1, c13Bpy / 3})
+		if c == 0 {
+			params.TokensPerBlock, params.MintDecrease = 4_200_000, 6
+		}
+		e.App.MintKeeper.SetParams(e.Ctx, params)
+		current := mm.GetVersionMap()
+		from := module.VersionMap{}
+		for name, v := range current {
+			from[name] = v
+			if rv, ok := recorded[name]; ok && rv < v {
+				from[name] = rv // a module whose consensus version was raised since: its migrations run at the upgrade
+			}
+		}
+		uk.SetModuleVersionMap(e.Ctx, from)
+		before := 3 + p.Intn(r.Scale(6, 20))
+		after := 2 + p.Intn(6)
+		upAt := e.Height + int64(before)
+		if err := uk.ScheduleUpgrade(e.Ctx, upgradetypes.Plan{Name: "verif-next", Height: upAt}); err != nil {
+			e.Close()
+			return fmt.Errorf("C13: scheduling the upgrade: %w", err)
+		}
+		lastEm := int64(-1)
+		halted := false
+		trace := []map[string]interface{}{}
+		for b := 0; b < before+after; b++ {
+			s0 := e.Supply("ujkl")
+			if e.Height+1 == upAt { // the node operators switch to the new binary for this block: only it knows the handler
+				uk.SetUpgradeHandler("verif-next", func(ctx sdk.Context, _ upgradetypes.Plan, fromVM module.VersionMap) (module.VersionMap, error) {
+					return mm.RunMigrations(ctx, cfg, fromVM)
+				})
+			}
+			pn, where := c05NextBlock(e, 6*time.Second)
+			desc := map[string]interface{}{"chain": c, "height": e.Height, "upgrade_height": upAt, "params": params, "module_versions_before_upgrade": from}
+			if pn != "" {
+				desc["panic"] = pn
+				trace = append(trace, desc)
+				r.Finding("C13/upgrade-chain/panic-"+where, "the chain halted: "+pn, map[string]interface{}{"trace": trace})
+				halted = true
+				break
+			}
+			em := e.Supply("ujkl") - s0
+			desc["emission"] = em
+			var rec *int64
+			if mb, found := e.App.MintKeeper.GetMintedBlock(e.Ctx, e.Height); found {
+				v := mb.Minted
+				rec = &v
+			}
+			desc["record"] = rec
+			trace = append(trace, desc)
+			bad := func(sig, what string) { r.Finding(sig, what, map[string]interface{}{"trace": trace}) }
+			if em < 0 {
+				bad("C13/emission-negative", "supply shrank in a block")
+			}
+			if lastEm >= 0 && em > lastEm {
+				bad("C13/emission-increased", fmt.Sprintf("emission %d at height %d larger than the previous block's %d (upgrade height %d)", em, e.Height, lastEm, upAt))
+			}
+			if rec == nil || *rec != em {
+				bad("C13/record-mismatch", "MintedBlock of the block differs from the supply growth")
+			}
+			if lastEm >= 0 {
+				r.Case("mint", fmt.Sprintf("MintFn %s %s %s %s", cZ(lastEm), cZ(c13Bpy), cZ(params.MintDecrease), cZ(em)), desc)
+			}
+			r.Count(fmt.Sprintf("chain:%d:%d:%d:%v", params.TokensPerBlock, params.MintDecrease, lastEm, e.Height == upAt), lastEm > 0)
+			stage := "before"
+			if e.Height == upAt {
+				stage = "at-upgrade-height"
+			} else if e.Height > upAt {
+				stage = "after"
+			}
+			r.Hist("upgrade-chain", stage)
+			lastEm = em
+		}
+		if done := uk.GetDoneHeight(e.Ctx, "verif-next"); done != upAt && !halted {
+			e.Close()
+			return fmt.Errorf("C13: the scheduled upgrade was not applied (done height %d, scheduled %d)", done, upAt)
+		}
+		r.Hist("upgrade-chain", "upgrade-applied")
+		e.Close()
+	}
+	return nil
+}
+
+func c13PrintModuleVersions() error {
+	e, err := NewEnv()
+	if err != nil {
+		return err
+	}
+	defer e.Close()
+	mm, _, _ := c13AppInternals(e)
+	js, err := json.MarshalIndent(mm.GetVersionMap(), "", " ")
+	if err != nil {
+		return err
+	}
+	fmt.Println(string(js))
 	return nil
 }
